@@ -18,7 +18,12 @@ RULE = ("operands: vectors named over an 8-name alphabet (None, '', plain, upper
 ASSUMPTIONS = ["operations the statement does not mention (<<, .T, unary ops, dropna, fillna, cast, vector-with-scalar math) are not judged",
                "names of empty (0x0) join results are not judged"]
 
-NAMES = [None, "x", "y", "", "X", "x y", "sum", "1a", "g2"]
+NAMES = [None, "x", "y", "", "X", "x y", "sum", "1a", "g2", "g"]
+
+
+def fresh(s):
+    """an equal but distinct str object (names must be compared by value, never by identity)"""
+    return (s + "#")[:-1] if isinstance(s, str) else s
 
 
 def vnames(t):
@@ -100,7 +105,7 @@ def step_checks(agg, obj, depth, out):
             ok(f"vector.{lab}", dict(case, op=lab), nm, v._name, ("V", v) if lab == "write-promote" else None)
         # binary math / comparison between vectors: unnamed
         for other in NAMES:
-            w = Vector(list(vals), name=other)
+            w = Vector(list(vals), name=fresh(other))
             for opn, op in (("add", operator.add), ("mul", operator.mul), ("sub", operator.sub), ("eq", operator.eq), ("lt", operator.lt), ("truediv", operator.truediv)):
                 r = attempt(f"vector.{opn}", case, lambda: op(x, w))
                 if r is not None and hasattr(r, "_name"):
@@ -157,12 +162,23 @@ def step_checks(agg, obj, depth, out):
         if r is not None and type(r).__name__ == "Table":
             ok(f"table.{opn}.scalar", dict(case, op=opn), N, vnames(r))
     for RN in itertools.product(NAMES, repeat=len(N)):
-        t2 = Table([Vector(list(range(1, nrows + 1)), name=rn) for rn in RN])
+        t2 = Table([Vector(list(range(1, nrows + 1)), name=fresh(rn)) for rn in RN])
         want = [ln if (rn is None or rn == ln) else None for ln, rn in zip(N, RN)]
         for opn, op in (("add", operator.add), ("sub", operator.sub)):
             r = attempt("t+t", case, lambda: op(t, t2))
             if r is not None and type(r).__name__ == "Table":
                 ok(f"table.{opn}.table", dict(case, right_names=list(RN), op=opn), want, vnames(r))
+    # table-with-table arithmetic after the left names were (re)written through rename_column with run-time built strings
+    if all(isinstance(n_, str) for n_ in N) and len(set(N)) == len(N):
+        try:
+            tl = Table([Vector(list(c._underlying), name=f"tmp{i}") for i, c in enumerate(t._underlying)])
+            for i, n_ in enumerate(N):
+                tl.rename_column(f"tmp{i}", fresh(n_))
+            tr = Table([Vector(list(range(1, nrows + 1)), name=fresh(n_)) for n_ in N])
+            r = tl + tr
+            ok("table.add.table.after-rename", dict(case, history=["rename_column with run-time strings", "t + t2 (equal names)"]), N, vnames(r))
+        except Exception:
+            agg.skipped["operation-raises"] += 1
     # joins keep left names then right names
     for RN in ([("k", "p")] + [tuple(N)] + [(None, "x")] + [("", "sum")]):
         R = Table([Vector(list(t._underlying[0]._underlying), name=RN[0])] + [Vector(list(range(nrows)), name=rn) for rn in RN[1:]])
@@ -191,9 +207,9 @@ def step_checks(agg, obj, depth, out):
                     elif not isinstance(N[1], str) or N.index(N[1]) != 1:
                         continue
                     elif how == "rename_column":
-                        t2.rename_column(N[1], new_name)
+                        t2.rename_column(fresh(N[1]), fresh(new_name))
                     else:
-                        t2.rename_columns([N[1]], [new_name])
+                        t2.rename_columns([fresh(N[1])], [fresh(new_name)])
                     r = getattr(t2, meth)(over=t2._underlying[0], sum_over=t2._underlying[1], mean_over=t2._underlying[1])
                 except Exception:
                     agg.skipped["operation-raises"] += 1
